@@ -50,6 +50,13 @@ func replay(kind string, input json.RawMessage) (bool, string) {
 	if f := ExtraReplays[kind]; f != nil {
 		return f(input)
 	}
+	if kind == "txseq" {
+		var seq []TxSpec
+		if err := json.Unmarshal(input, &seq); err != nil {
+			return false, err.Error()
+		}
+		return replaySeq(seq)
+	}
 	if kind != "tx" {
 		return false, "unknown replay kind " + kind
 	}
@@ -62,6 +69,18 @@ func replay(kind string, input json.RawMessage) (bool, string) {
 		return false, "serialises to well-formed structure-preserving JSON: " + clip(out)
 	}
 	return true, "[" + key + "] " + why + "\n output: " + clip(out)
+}
+
+// replaySeq marshals the transactions one after the other in this process; the
+// sequence violates the property when any of them does.
+func replaySeq(seq []TxSpec) (bool, string) {
+	for i := range seq {
+		key, why, out := CheckSpec(&seq[i])
+		if why != "" {
+			return true, fmt.Sprintf("[%s] transaction %d of %d: %s\n output: %s", key, i+1, len(seq), why, clip(out))
+		}
+	}
+	return false, "every transaction of the sequence serialises to well-formed structure-preserving JSON"
 }
 
 // ---- abstract specification of a transaction ---------------------------------
@@ -193,7 +212,59 @@ func CheckTransaction(tx *gobinlog.Transaction) (key, why, out string) {
 }
 
 // CheckSpec builds the value of the specification and applies the oracle.
-func CheckSpec(s *TxSpec) (key, why, out string) { return check(s, s.Build()) }
+func CheckSpec(s *TxSpec) (key, why, out string) {
+	tx := s.Build()
+	if key, why, out = check(s, tx); why != "" {
+		return
+	}
+	// the second serialisation for a fixed quarter of the specifications (a
+	// function of the specification, so that a re-execution takes the same path)
+	h := uint64(s.NowOff) + uint64(s.NextOff)*3 + uint64(s.Ts)*5 + uint64(len(s.Events))*7 + uint64(len(s.NowFile))*11
+	for i := range s.Events {
+		h += uint64(len(s.Events[i].Values))*13 + uint64(len(s.Events[i].Identifies))*17 + uint64(s.Events[i].Type)*19 + uint64(len(s.Events[i].SQL))*23
+	}
+	if h%4 != 0 {
+		return
+	}
+	return checkAgain(tx)
+}
+
+// checkAgain changes the transaction in place (as a handler that masks a value
+// or drops an event does) and serialises the same object again: the document
+// must describe the transaction as it is now, not as it was when it was
+// serialised first.
+func checkAgain(tx *gobinlog.Transaction) (key, why, out string) {
+	tx.NextPosition.Offset++
+	tx.Timestamp++
+	if n := len(tx.Events); n > 0 {
+		last := tx.Events[n-1]
+		for _, rows := range [][]*gobinlog.RowData{last.RowValues, last.RowIdentifies} {
+			for _, rd := range rows {
+				if rd == nil {
+					continue
+				}
+				for _, c := range rd.Columns {
+					if c != nil && c.Data != nil {
+						c.Data = append([]byte("*"), c.Data...)
+					}
+				}
+			}
+		}
+		if n > 1 {
+			tx.Events = tx.Events[1:]
+		}
+	}
+	if k, w, o := check(SpecOf(tx), tx); w != "" {
+		return "again:" + k, "after the transaction was changed in place and serialised a second time: " + w, o
+	}
+	// a shallow copy serialises like the original
+	cp := *tx
+	cp.NowPosition.Offset += 2
+	if k, w, o := check(SpecOf(&cp), &cp); w != "" {
+		return "copy:" + k, "a shallow copy with another position, serialised after the original: " + w, o
+	}
+	return "", "", ""
+}
 
 // ---- the documented names -------------------------------------------------------
 
@@ -982,6 +1053,83 @@ func RunSynthetic(r *chk.Run) {
 		})
 	}
 
+	// ---- block 6: table names that collide under non-injective renderings, in one process ----
+	// Every (db, table) pair over words of the symbols a A ` . and space goes
+	// through the marshaler one after the other in this process, so that any
+	// state the marshaler keeps between calls (a cache keyed by a rendering of
+	// the name that is not injective: `db`.`table`, db.table, a case fold, a
+	// trim) hands one name to another. The counterexample is the pair of
+	// transactions (the one whose name came out + the one under test).
+	var block6 int64
+	{
+		var c counters
+		syms := []string{"a", "A", "`", ".", " "}
+		maxLen := 3
+		if thorough {
+			maxLen = 4
+		}
+		nameWords := []string{""}
+		for lo, l := 0, 1; l <= maxLen; l++ {
+			hi := len(nameWords)
+			for _, w := range nameWords[lo:hi] {
+				for _, sy := range syms {
+					nameWords = append(nameWords, w+sy)
+				}
+			}
+			lo = hi
+		}
+		mk := func(db, table string) TxSpec {
+			rows := evParams{sh: shape{kind: kInsert, rows: 1, cols: 1}, stype: 4, db: db, table: table, col: defCol, data: defData, mode: mValue, ctype: 3, ts: 1600000001}
+			stmt := evParams{sh: shape{sql: true}, stype: 7, db: db, table: table, sql: "create table x(y int)", ts: 1600000002}
+			return TxSpec{NowFile: []byte(defFile), NowOff: 4, NextFile: []byte(defFile), NextOff: 400, Ts: 1600000003,
+				Events: []EvSpec{mkEvent(&rows), mkEvent(&stmt)}}
+		}
+	outer6:
+		for _, db := range nameWords {
+			if stop() {
+				break
+			}
+			for _, table := range nameWords {
+				c.evals++
+				tx := mk(db, table)
+				key, why, out := CheckSpec(&tx)
+				if why == "" {
+					continue
+				}
+				// the name that came out instead tells which earlier transaction is the partner
+				seq := []TxSpec{tx}
+				var doc struct {
+					Events []struct {
+						Name struct{ DB, Table string }
+					}
+				}
+				if json.Unmarshal([]byte(out), &doc) == nil && len(doc.Events) > 0 {
+					seq = []TxSpec{mk(doc.Events[0].Name.DB, doc.Events[0].Name.Table), tx}
+				}
+				r.Report(chk.Violation{
+					Key:    key,
+					What:   fmt.Sprintf("names db=%q table=%q after the other names of the block went through the marshaler: %s; output %s", db, table, why, clip(out)),
+					Kind:   "txseq",
+					Replay: seq,
+					Recheck: func() string {
+						ok, msg := replaySeq(seq)
+						if !ok {
+							return ""
+						}
+						return msg
+					},
+				})
+				if r.TooMany() {
+					break outer6
+				}
+			}
+		}
+		block6 = c.evals
+		add(&c)
+		r.Set("synthetic_block6_name_pairs", block6)
+		r.Set("synthetic_block6_name_words", fmt.Sprintf("%d words of <= %d symbols over {a, A, backquote, dot, space}", len(nameWords), maxLen))
+	}
+
 	r.SetExhaustive(!cut.Load())
 	r.Eval(total.evals)
 	r.DistinctN(total.evals)
@@ -1015,7 +1163,7 @@ func RunSynthetic(r *chk.Run) {
 		_, why, out := CheckSpec(&s)
 		r.Sample(smp.class, map[string]interface{}{"output": out, "oracle": map[bool]string{true: "held", false: why}[why == ""]})
 	}
-	r.Rule("synthetic half: transactions built directly from a specification; block 1 = each of the 6 string fields (file, db, table, column name, SQL, data) set to each of the 211 words while the structure dimensions (event shape: statement or insert/delete/update rows with 0..2 rows x 0..3 columns; data nil/empty/value; isEmpty; 1..3 events; 4 offset pairs; statement type) run through their product, skipping combinations in which a dimension is not part of the transaction (no input twice); block 2 = all pairs of fields over single symbols; block 3 = statement types x shapes x with/without SQL; block 4 = all 256 column type bytes + 3 out-of-range; block 5 = Events nil/empty and all event sequences of length <= 3 over 9 event kinds x 16 offset pairs x 5 timestamps. Each is marshalled with encoding/json, must be valid JSON, and the generic decode must equal the specification")
+	r.Rule("synthetic half: transactions built directly from a specification; block 1 = each of the 6 string fields (file, db, table, column name, SQL, data) set to each of the 211 words while the structure dimensions (event shape: statement or insert/delete/update rows with 0..2 rows x 0..3 columns; data nil/empty/value; isEmpty; 1..3 events; 4 offset pairs; statement type) run through their product, skipping combinations in which a dimension is not part of the transaction (no input twice); block 2 = all pairs of fields over single symbols; block 3 = statement types x shapes x with/without SQL; block 4 = all 256 column type bytes + 3 out-of-range; block 5 = Events nil/empty and all event sequences of length <= 3 over 9 event kinds x 16 offset pairs x 5 timestamps; block 6 = every (db, table) pair over the words of <= 3 (thorough: 4) symbols of {a, A, backquote, dot, space}, marshalled one after the other in one process (names that collide under a non-injective rendering). Each is marshalled with encoding/json, must be valid JSON, and the generic decode must equal the specification")
 	r.Assume("delivered events are either statement events (Query.SQL non-empty: the streamer only appends a query event whose first word is a known keyword, rows nil) or rows events (Query.SQL empty); the two other combinations are enumerated too but only the fields the marshaler can express are demanded for them: a statement event without SQL is rendered in rows form (no sql key), a rows event with SQL is rendered in statement form (rows dropped)")
 	r.Assume("a nil list (Events, RowValues, RowIdentifies, Columns) and an empty list both mean 'no elements': JSON null and [] are both accepted for either")
 	r.Assume("strings that are not valid UTF-8 (names, SQL, data) are only required to keep the document well-formed and to stay JSON strings; the property demands verbatim rendering for valid UTF-8 only")
